@@ -375,7 +375,7 @@ def gen_dunder():
 # Theory/Tape.v can state `<table> = <the text the model was written against>`; any edit of these
 # functions breaks that lemma (fail-closed) instead of silently leaving the model behind the code.
 PIN_MV = ['keys', 'values', 'fromkeysvalues', 'grade', '__getattr__', '__pow__', 'norm', 'normalized', 'dual', 'undual']
-PIN_TAPE = ['__new__', 'keys', '__getattr__', 'grade', 'binary_operator', 'unary_operator', '__rsub__', '__pow__',
+PIN_TAPE = ['__new__', 'keys', '__getattr__', 'grade', 'binary_operator', 'unary_operator', '__rsub__', '__rmul__', '__rxor__', '__pow__',
             'dual', 'undual', 'norm', 'normalized']
 PIN_GLUE = [('operator_dict.py', 'OperatorDict', '_call_binary'), ('operator_dict.py', 'UnaryOperatorDict', '__call__'),
             ('operator_dict.py', 'Registry', '__getitem__'), ('operator_dict.py', 'Registry', '__call__'),
@@ -448,6 +448,8 @@ def main():
     try:
         outputs['Codegen.v'] = gen_codegen()
         outputs['Dunder.v'] = gen_dunder()
+        import pins
+        outputs['Pins.v'] = pins.generate()
         import translate_stmt
         try:
             outputs['Kernels.v'] = translate_stmt.generate()
